@@ -70,11 +70,11 @@ PROPS.update({
     "C10": dict(pkg="./props/c10_fallback", tests=[REGRESS(), T("TestFallback", (8, 6000), (16, 100000))],
         rule=COMPOSE_RULE + "a fallback was applied AND (the failure it handled came from a library-generated error: ExceededError, ErrOpen, ErrFull, rate-limit or timeout error; or the fallback has a HandleResult/HandleIf condition). Profile: fallback outermost, full error universe, all policy kinds inside.",
         assumptions=COMPOSE_ASSUMPTIONS),
-    "C11": dict(pkg="./props/c11_cache", tests=[REGRESS(), T("TestCache", (8, 5000), (16, 80000))],
-        rule=COMPOSE_RULE + "a cache hit that follows a store made by an earlier step of the same history, or a context key that conflicts with a configured key after something was stored, or an error outcome stored through a matching CacheIf. Profile: cache-heavy pools sharing one instrumented cache, stateful policies inside, histories up to 10 steps with direct cache writes/deletes.",
+    "C11": dict(pkg="./props/c11_cache", tests=[REGRESS(), T("TestCache", (8, 5000), (16, 80000)), T("TestCacheOverlapping", (4, 1500), (8, 20000))],
+        rule=COMPOSE_RULE + "a cache hit that follows a store made by an earlier step of the same history, or a context key that conflicts with a configured key after something was stored, or an error outcome stored through a matching CacheIf. Profile: cache-heavy pools sharing one instrumented cache, stateful policies inside, histories up to 10 steps with direct cache writes/deletes. TestCacheOverlapping: 2..6 executions with generated keys overlap inside one cache policy (parked in the function, completed in a generated order); non-trivial when at least two different keys are involved.",
         assumptions=COMPOSE_ASSUMPTIONS + ["an empty string key in the context is generated only when no cache policy has a configured key (the statement does not say whether an empty context key counts as supplied)"]),
-    "C16": dict(pkg="./props/c16_events", tests=[REGRESS(), T("TestEvents", (8, 6000), (16, 120000))],
-        rule=COMPOSE_RULE + "at least 3 distinct listener kinds fired and at least one of {abort, exhaustion, rejection, cache hit, fallback, timeout, nested retries}. Every listener of every builder and of the executor is registered into one recorder.",
+    "C16": dict(pkg="./props/c16_events", tests=[REGRESS(), T("TestEvents", (8, 6000), (16, 120000)), T("TestEventsConcurrent", (4, 1500), (8, 30000)), T("TestEventsWhenWaitsAreCancelled", (2, 600), (4, 8000))],
+        rule=COMPOSE_RULE + "at least 3 distinct listener kinds fired and at least one of {abort, exhaustion, rejection, cache hit, fallback, timeout, nested retries}. Every listener of every builder and of the executor is registered into one recorder. TestEventsConcurrent: 2..12 executions with different scripts share one executor and its listeners; each execution's events (attributed through the context) must equal the model's prediction for its own script. TestEventsWhenWaitsAreCancelled: an execution waiting an hour for a bulkhead permit, a limiter permit or a retry delay is cancelled; rejection / retry / exhaustion listeners must stay silent.",
         assumptions=COMPOSE_ASSUMPTIONS),
     "C17": dict(pkg="./props/c17_stats", tests=[REGRESS(), T("TestStats", (8, 6000), (16, 120000)), T("TestHedgedStats", (4, 1000), (8, 15000), pkg="./props/c09_hedge")],
         rule=COMPOSE_RULE + "at least one retry happened and at least one attempt was rejected before reaching the function (breaker, bulkhead or rate limiter). Observation points: function entry, every listener, fallback functions, completion events. Hedged executions (TestHedgedStats, from the C09 harness) count as non-trivial when at least two attempts overlapped.",
@@ -157,9 +157,9 @@ PROPS["C04"] = dict(
 
 PROPS["C15"] = dict(
     pkg="./props/c15_async",
-    tests=[REGRESS(), T("TestSyncAsyncAgree", (6, 3000), (8, 60000)), T("TestFutureProtocol", (8, 1500), (8, 40000))],
+    tests=[REGRESS(), T("TestSyncAsyncAgree", (6, 3000), (8, 60000)), T("TestFutureProtocol", (8, 1500), (8, 40000)), T("TestCancelAfterInnerTimeout", (2, 300), (4, 5000)), T("TestCancelSpin", (4, 20), (8, 400))],
     replay_reps=300,
-    rule="(differential) rapid-generated composition scenarios run twice on fresh instances, once through the four synchronous entry points and once through the four asynchronous ones; results, errors and invocation counts must agree step by step; non-trivial = some policy acted. (protocol) generated scenarios with every attempt parked on a harness gate, 1..16 reader goroutines issuing generated sequences of IsDone / non-blocking Done / Get / Result / Error / blocking Done before and after completion, completion listeners logging, and Cancel() before the start, while attempt k is parked, during a 1 h retry delay, or after completion; non-trivial = at least 2 readers were blocked before completion, or a Cancel landed between the first entry and completion; distinct = the scenario",
+    rule="(differential) rapid-generated composition scenarios run twice on fresh instances, once through the four synchronous entry points and once through the four asynchronous ones; results, errors and invocation counts must agree step by step; non-trivial = some policy acted. (protocol) generated scenarios with every attempt parked on a harness gate, 1..16 reader goroutines issuing generated sequences of IsDone / non-blocking Done / Get / Result / Error / blocking Done before and after completion, completion listeners logging, and Cancel() before the start, while attempt k is parked, during a 1 h retry delay, or after completion; non-trivial = at least 2 readers were blocked before completion, or a Cancel landed between the first entry and completion; distinct = the scenario. TestCancelAfterInnerTimeout: Retry(Timeout(fn)), the attempt is ended by the inner Timeout, Cancel lands in the 1 h retry delay: every reader must get ErrExecutionCanceled. TestCancelSpin: batches of 2000 async unlimited-retry executions cancelled after a generated spin.",
     assumptions=["IsDone()==true slightly before Done is closed is not flagged (the statement's 'exactly' is checked in the direction Done closed => IsDone true)",
                  "Cancel is only required to surface as ErrExecutionCanceled when a retry or hedge policy is in the stack, as the property says"],
 )
